@@ -157,8 +157,15 @@ class TArr:
             index = (index,)
         t, rest = index[0], index[1:]
         if rest:
-            if any(type(r) is SymSlice for r in rest):
-                raise Unsupported("symbolic slice on a sample axis")
+            if any(type(r) is SymSlice or slice_needs_sym(r) for r in rest):
+                # sample-axis slices with symbolic raw bounds: the normalised bounds range over 0..dim (bounded fork)
+                new = []
+                for ax, r in enumerate(rest):
+                    if type(r) is SymSlice or slice_needs_sym(r):
+                        st, sp, stp = SymSlice.of(r).indices(s.cols.shape[ax])
+                        r = builtins.slice(st.__index__(), sp.__index__(), stp)
+                    new.append(r)
+                rest = tuple(new)
             cols = s.cols[rest]
         else:
             cols = s.cols
